@@ -657,7 +657,7 @@ func main() {
 	}
 	phases := []phase{{false, 2, []bool{false}, 150 * time.Second}}
 	if thorough {
-		phases = []phase{{true, 2, []bool{false, true}, 12 * time.Minute}, {false, 3, []bool{false}, 25 * time.Minute}}
+		phases = []phase{{true, 2, []bool{false, true}, 10 * time.Minute}, {false, 3, []bool{false}, 18 * time.Minute}}
 	}
 	var execs, nodes, steps int64
 	outcomes := map[string]int64{}
